@@ -13,6 +13,7 @@ package trzsz
 
 import (
 	"bytes"
+	"encoding/base64"
 	"fmt"
 	"math/rand"
 	"regexp"
@@ -38,25 +39,26 @@ type c06Tok struct {
 }
 
 type c06Step struct {
-	Ctl  string
-	Tun  bool
-	Toks []c06Tok // without ctl tokens
-	Raw  []byte
+	Ctl   string
+	Tun   bool
+	Toks  []c06Tok // without ctl tokens
+	Raw   []byte
+	fixed bool // Raw given (replay of recorded bytes)
 	// expectation exported by TLC (MBT only)
 	Want map[string]any
 }
 
 type c06Case struct {
-	Role   string
-	Win    bool
-	Steps  []c06Step
-	Filter bool
-	Class  string // generator class (tv): "" | "lookahead"
+	Role    string
+	Win     bool
+	Steps   []c06Step
+	Filter  bool
+	Class   string // generator class (tv): "" | "lookahead"
 	WantMem []any
-	verMap map[string]string // class -> concrete
-	verRev map[string]string
-	tsMap  map[int]string
-	tsRev  map[string]int
+	verMap  map[string]string // class -> concrete
+	verRev  map[string]string
+	tsMap   map[int]string
+	tsRev   map[string]int
 }
 
 func c06Str(m map[string]any, k string) string {
@@ -79,6 +81,9 @@ func c06ParseTok(m map[string]any) c06Tok {
 	case "trig":
 		t.Mode, t.VerAbs, t.Shape, t.Sfx = c06Str(m, "mode"), c06Str(m, "ver"), c06Str(m, "shape"), c06Str(m, "sfx")
 		t.TsAbs, t.Port = c06Int(m, "ts", 0), c06Int(m, "port", -1)
+		if _, concrete := m["vclass"]; concrete { // a token of a recorded event: concrete values
+			t.Ver, t.Ts, t.VerAbs = c06Str(m, "ver"), c06Str(m, "ts"), ""
+		}
 	case "part":
 		t.K = c06Str(m, "k")
 	case "fin":
@@ -100,6 +105,10 @@ func c06ParseCase(m map[string]any) *c06Case {
 		sm := s.(map[string]any)
 		st := c06Step{Ctl: c06Str(sm, "ctl"), Want: sm}
 		st.Tun, _ = sm["tun"].(bool)
+		if r := c06Str(sm, "raw"); r != "" { // exact bytes of a recorded run
+			st.Raw, _ = base64.StdEncoding.DecodeString(r)
+			st.fixed = true
+		}
 		toks, _ := sm["toks"].([]any)
 		for _, t := range toks {
 			tok := c06ParseTok(t.(map[string]any))
@@ -302,6 +311,9 @@ func c06Concretise(c *c06Case, rng *rand.Rand) {
 	c.verMap, c.verRev, c.tsMap, c.tsRev = map[string]string{}, map[string]string{}, map[int]string{}, map[string]int{}
 	for si := range c.Steps {
 		st := &c.Steps[si]
+		if st.fixed {
+			continue
+		}
 		var b bytes.Buffer
 		for ti := range st.Toks {
 			t := &st.Toks[ti]
